@@ -22,6 +22,11 @@ FORMS_COL = ["pair", "triple"]
 
 
 def build_index(r, c, form):
+    if (c is not None or form != "plain") and r[0] == "i" and r[2] == 2:
+        r = ["i", r[1], True]      # a 0-d array is an integer index only in the single-index form ra[k] (explicit branch in the library);
+        #                            inside a tuple the library does not treat it as one, and the property's grammar says "integer"
+    if c is not None and c[0] == "i" and c[2] == 2:
+        c = ["i", c[1], True]
     pr = py_sel(r)
     if c is None:
         if form == "tuple1":
